@@ -1,9 +1,11 @@
 from checks.common import Report
+from checks.jit_replay import cached_objects_order
 from checks.jitfx import run_jit
 
 
 def run(tier, seed):
     rep = Report("C14", tier, seed)
     run_jit(rep, "C14", tier, seed)
+    cached_objects_order(rep, tier, seed)
     rep.trust("pyvc effect-trace mode (path enumeration over the real source of jit.py)", "cffi, importlib, the C compiler")
     return rep.finish()
